@@ -71,6 +71,7 @@ type mOld struct {
 	C string `json:"c"` // which pinned piece explains it: "star" | "subject" | "both"
 }
 type mCase struct {
+	Fam     string   `json:"fam"`
 	Queries []mQuery `json:"queries"`
 	F       []mLine  `json:"f"`
 	D       []mRes   `json:"d"`
@@ -581,15 +582,32 @@ func (r *runner) oneFile(f []mLine, queries []mQuery, d []mRes, o map[int]mOld, 
 		}
 		detail := map[string]any{"file": mf.text, "model_file": f, "query": q, "got": got, "want": want,
 			"hostname": strings.Join(q.H, "") + ":" + q.Port, "remote": strings.Join(q.RH, "") + ":" + q.RPort}
-		if old, isOld := o[i+1]; isOld && got.Note == "" && agree(got, old.R, q.Key.Cert) {
-			if old.C == "star" || old.C == "both" {
+		// attribution to the two defects the model documents (former wildcardMatch / former IsRevoked): the answer
+		// is the one the reference gives with that former piece (the reference is validated against TLC's
+		// transcriptions of them in TestReplay); the verdict is a violation either way, this only picks the signature
+		cause := ""
+		if got.Note == "" {
+			for _, alt := range []struct {
+				c       string
+				wild    func(p, s string) bool
+				subject bool
+			}{{"star", wildPinned, true}, {"subject", wildRef, false}, {"both", wildPinned, false}} {
+				a := decideRef(f, q, alt.wild, alt.subject)
+				if !sameRes(a, want) && agree(got, a, q.Key.Cert) {
+					cause = alt.c
+					break
+				}
+			}
+		}
+		if cause != "" {
+			if cause == "star" || cause == "both" {
 				r.star++
 				if r.star <= 3 {
 					r.out.Violation(sigStar, "knownhosts: a pattern ending in '*' (or containing '**') does not match a host that is exhausted when the star is reached "+
 						"(e.g. pattern \"a*\" vs host \"a\"); OpenSSH's match_pattern and the declarative definition match", detail)
 				}
 			}
-			if old.C == "subject" || old.C == "both" {
+			if cause == "subject" || cause == "both" {
 				r.subject++
 				if r.subject <= 3 {
 					r.out.Violation(sigSubject, "knownhosts: a host certificate whose subject public key is @revoked is accepted when its CA is on a matching "+
@@ -757,8 +775,7 @@ func TestReplay(t *testing.T) {
 	}()
 	r := newRunner(t, out)
 	defer r.finish()
-	var queries []mQuery
-	label := vutil.Env("VERIF_LABEL", "")
+	byFam := map[string][]mQuery{}
 	nref := 0
 	err := vutil.ReadNDJSON(vutil.Env("VERIF_CASES", ""), func(line []byte) error {
 		var c mCase
@@ -766,11 +783,13 @@ func TestReplay(t *testing.T) {
 			return err
 		}
 		if c.Queries != nil {
-			queries = c.Queries
+			byFam[c.Fam] = c.Queries
 			return nil
 		}
+		queries := byFam[c.Fam]
+		label := c.Fam
 		if queries == nil || len(c.D) != len(queries) {
-			return fmt.Errorf("case without matching query list")
+			return fmt.Errorf("case of family %q without matching query list", c.Fam)
 		}
 		o := map[int]mOld{}
 		for _, x := range c.O {
